@@ -4,7 +4,7 @@ EXTENDS YannyFile, TLC
 CONSTANTS MaxOps, Rich, Deviation     \* Rich: larger append menus; Deviation: "none" | "objectonly" | "clobber"
 VARIABLE nops, nextid, hist, start   \* bound on history length; fresh row / key ids; the calls made so far; the initial situation
 
-Keys == {"k1", "enum", "struct"}
+Keys == {"k1", "enum", "struct", "k0"}
 TablesDef == <<"TA", "TB">>
 mvars == <<fs, obj, model, last, nops, nextid, hist, start>>
 
@@ -12,7 +12,7 @@ mvars == <<fs, obj, model, last, nops, nextid, hist, start>>
 RowChoices == [TableSet -> IF Rich THEN {<<>>, <<nextid>>, <<nextid, nextid + 1>>} ELSE {<<>>, <<nextid>>}]
 PairChoices == {<<>>} \cup {<<<<k, nextid>>>> : k \in {kk \in (IF Rich THEN Keys ELSE {"k1"}) : \A i \in 1..Len(obj.pairs) : obj.pairs[i][1] # kk}}
 
-Base == [rows |-> [t \in TableSet |-> IF t = Tables[1] THEN <<1, 2>> ELSE <<>>], pairs |-> <<<<"k0", 0>>>>]
+Base == [rows |-> [t \in TableSet |-> IF t = Tables[1] THEN <<1, 2>> ELSE <<>>], pairs |-> <<<<"K0", 0>>>>]   \* an upper-case keyword: "k0" is a different, appendable keyword
 Empty == [rows |-> NoRows, pairs |-> <<>>]
 (* start: an object read from an existing file holding the base content, or a new unbound empty object *)
 Init ==
